@@ -502,7 +502,7 @@ func runC04(c *Ctx) {
 					nDl++
 					ok := false
 					for a := range ff.At(in) {
-						if strings.HasSuffix(a, "Server.WriteTimeout != 0") || strings.Contains(a, "WriteTimeout != 0") {
+						if strings.Contains(a, "WriteTimeout != 0") || strings.Contains(a, "WriteTimeout > 0") {
 							ok = true
 						}
 					}
